@@ -57,7 +57,17 @@ def program(kind, elem, shape, n, for_eval=False):
         body_decl = "    let mut a: array<%s> = []\n" % e["ty"] + "".join("    set a (array_push a %s)\n" % e["lit"](i) for i in range(n))
     else:
         body_decl = "    let mut a: array<%s> = %s\n" % (e["ty"], lit)
-    if shape == "straight":
+    if shape == "drained":
+        # n elements pushed one by one and then all taken out again (pop, or remove_at 0 for odd n):
+        # the array is empty but has a history - storage allocated, element size known, length went up and down
+        body_decl = "    let mut a: array<%s> = []\n" % e["ty"] + "".join("    set a (array_push a %s)\n" % e["lit"](i) for i in range(n))
+        for i in range(n):
+            if n % 2 == 1 and i == 0:
+                body_decl += "    (array_remove_at a 0)\n"
+            else:
+                body_decl += "    let d%d: %s = (array_pop a)\n    %s\n" % (i, e["ty"], e["show"]("d%d" % i))
+        body_decl += "    (println (array_length a))\n"
+    if shape in ("straight", "drained"):
         core = "%s    (println \"before\")\n    %s\n    (println \"after\")\n" % (body_decl, acc)
         fn = "fn probe(k: int) -> int {\n%s    return 1\n}\nshadow probe {\n%s}\n"
     elif shape == "callee":
@@ -80,9 +90,11 @@ def program(kind, elem, shape, n, for_eval=False):
 def _task(args):
     tree_root, work, key, kind, elem, shape, n, envx_native = args
     name = "c08_%s_%s_%s_%d" % (kind, elem, shape, n)
-    bad, good = indices(n)
+    bad, good = indices(0 if shape == "drained" else n)
     if kind == "pop":
-        bad, good = ([0] if n == 0 else []), ([0] if n > 0 else [])
+        bad, good = ([0] if (n == 0 or shape == "drained") else []), ([0] if (n > 0 and shape != "drained") else [])
+    if shape == "drained":
+        bad = bad[:6]
     res = {"key": key, "name": name, "runs": []}
     src = os.path.join(work, name + ".nano")
     open(src, "w").write(program(kind, elem, shape, n))
@@ -149,6 +161,8 @@ def run(tier):
                     if kind == "pop" and n not in (0, 3):
                         continue
                     jobs.append((tree.root, work, len(jobs), kind, elem, shape, n, lang.envx))
+            for n in ((1, 2) if tier == "quick" else (1, 2, 3, 8, 9)):
+                jobs.append((tree.root, work, len(jobs), kind, elem, "drained", n, lang.envx))
     findings = dict((f["id"], f) for f in common.load_findings("C08"))
     faults = controls = 0
     classes = set()
